@@ -326,7 +326,7 @@ async fn run(plan: &Value, ctx: &mut Ctx) {
                         cps[idx].state = "used";
                         break;
                     }
-                    if live_newer >= MAX_CP + 5 {
+                    if live_newer >= MAX_CP {
                         ctx.violate("C30", "bound-not-enforced", "", format!("a continuation point with {} newer points in the same session is still served (bound is {})", live_newer, MAX_CP));
                     }
                     let got: Vec<String> = res.references.unwrap_or_default().iter().map(refdesc_key).collect();
